@@ -36,7 +36,7 @@ impl Property for C15 {
         let name = ty.short();
         let a = model::align(ty);
         let mut t = Tape::new(tape);
-        let route = t.take(4);
+        let route = t.route(4);
         let use_default = sh.consts().has_default && t.chance(1, 4);
         let mut fuel = Fuel::small();
         fuel.max_len = 8;
